@@ -42,7 +42,13 @@ func execUnionExprUnion(context *exprContext, expr *grammar.Grammar) error {
 		return fmt.Errorf("cannot union non-NodeSet's")
 	}
 
-	context.result = unionCleanup(append(leftNodeSet, rightNodeSet...))
+	// The operands may be node-sets that the caller holds (variables); they
+	// must not be appended to or sorted in place.
+	union := make(NodeSet, 0, len(leftNodeSet)+len(rightNodeSet))
+	union = append(union, leftNodeSet...)
+	union = append(union, rightNodeSet...)
+
+	context.result = unionCleanup(union)
 	return nil
 }
 
